@@ -98,6 +98,8 @@ pub struct Case {
     /// `Clone::clone` of an element is a scheduling point of its own
     pub clonepoint: bool,
     pub rawskip: bool,
+    /// `zstiter`: the wrapped iterator is a zero-sized type (kind iter)
+    pub zstiter: bool,
     /// `relocate k`: before the k-th operation of thread 0 (single-thread cases) the iterator value is moved to another address
     pub relocate: Option<usize>,
     pub clonefrom: bool,
@@ -397,6 +399,7 @@ struct Partial {
     inpanic: Vec<usize>,
     clonepoint: bool,
     rawskip: bool,
+    zstiter: bool,
     relocate: Option<usize>,
     clonefrom: bool,
     threads: Vec<Vec<Op>>,
@@ -458,6 +461,7 @@ fn finish(p: Partial) -> Result<Case, String> {
         inpanic: p.inpanic,
         clonepoint: p.clonepoint,
         rawskip: p.rawskip,
+        zstiter: p.zstiter,
         relocate: p.relocate,
         clonefrom: p.clonefrom,
         spare: p.spare,
@@ -543,6 +547,9 @@ pub fn parse_cases(text: &str) -> Result<Vec<Case>, String> {
             }
             "rawskip" => {
                 p.rawskip = true;
+            }
+            "zstiter" => {
+                p.zstiter = true;
             }
             "relocate" => {
                 let k = toks
